@@ -45,7 +45,7 @@ var (
 	tainted  bool // a call did not return: a goroutine is stuck, stop measuring
 
 	maxLatency   time.Duration
-	latencyBound = 200 * time.Millisecond
+	latencyBound = 500 * time.Millisecond
 	hardWatchdog = 20 * time.Second
 )
 
@@ -667,7 +667,7 @@ func main() {
 	res.DriverUsed = drv != nil
 	res.Rule = "one case = (program, cancellation instant): cancel when instruction k is dispatched (every k for programs up to the exhaustive bound, sampled k for large and non-terminating programs), already-cancelled, deadline already expired, real 3 ms timeout, cancel-after-return, never; non-trivial when the context is cancelled before or during the run; distinct by (program, instant)"
 	if thorough {
-		latencyBound = 200 * time.Millisecond
+		latencyBound = 500 * time.Millisecond
 	}
 	if f.Replay != "" {
 		replay(f.Replay)
